@@ -225,7 +225,19 @@ func (s *LogStore) triggerVerify(r VerificationReport) {
 
 // DeleteRange deletes a range of log entries. The range is inclusive.
 func (s *LogStore) DeleteRange(min uint64, max uint64) error {
-	return s.s.DeleteRange(min, max)
+	if err := s.s.DeleteRange(min, max); err != nil {
+		return err
+	}
+	// The running checksum covers everything written since sumStartIdx. If any
+	// of that was just deleted (typically a follower truncating a conflicting
+	// tail before accepting a new leader's entries) it no longer describes what
+	// is in the log, so start over. The next checkpoint is then verified by
+	// reading the range back rather than by comparing write-time checksums.
+	if startIdx := atomic.LoadUint64(&s.sumStartIdx); startIdx != 0 && max >= startIdx {
+		atomic.StoreUint64(&s.checksum, 0)
+		atomic.StoreUint64(&s.sumStartIdx, 0)
+	}
+	return nil
 }
 
 // Close cleans up the background verification routine and calls Close on the
